@@ -1024,6 +1024,19 @@ class AgentsMgt(MessagePassingComputation):
                                   'replica: will not be repaired', o)
         self._comps_state.update({c: None for c in orphaned})
 
+        if not candidates_agents:
+            # Nobody holds a replica of any orphaned computation: there is no
+            # agent to ask for a repair, and no answer will ever come back.
+            # Report the failure instead of waiting forever.
+            self.logger.error('No candidate agent for orphaned computations '
+                              '%s: cannot repair', orphaned)
+            self._dump_repair_metrics("KO", 0)
+            if not self._orchestrator.repair_only:
+                self._request_resume()
+            self.dist_count += 1
+            self.repair_metrics.clear()
+            return
+
         # For removal, agents that must be informed are agents that possess a
         # replica of one of the orphaned computation.
         for candidate in candidates_agents:
